@@ -53,7 +53,7 @@ func (c SCase) param() string {
 }
 
 func genS(t *rapid.T) (SCase, *env.Env) {
-	tg := gen.Target(t, assetgen.Opts{Audio: []string{"", "aac"}}, 55, []string{"testpic_2s", "testpic_6s", "testpic_8s", "testpic_alt_seg_dur_stl", "bbb_hevc_ac3_8s"})
+	tg := gen.Target(t, assetgen.Opts{Audio: []string{"", "aac"}, AllowThumb: true}, 55, []string{"testpic_2s", "testpic_6s", "testpic_8s", "testpic_alt_seg_dur_stl", "bbb_hevc_ac3_8s"})
 	e, err := env.Get(tg)
 	if err != nil {
 		t.Fatalf("HARNESS: %v", err)
@@ -69,7 +69,7 @@ func genS(t *rapid.T) (SCase, *env.Env) {
 	if tg.Layout != nil && tg.Layout.AvgSegMS() < 1000 {
 		cfg.Extra = []string{"mup_1"}
 	}
-	rep := gen.RepOfKinds(t, e.Asset, "video", "audio")
+	rep := gen.RepOfKinds(t, e.Asset, "video", "video", "audio", "audio", "image") // (thumbnails are addressed by number in every MPD type)
 	c := SCase{Target: tg, Cfg: cfg, RepID: rep.ID}
 	if a := tg.Asset; (a == "testpic_2s" || a == "testpic_6s" || a == "testpic_8s") && rapid.IntRange(0, 2).Draw(t, "chunked") == 0 {
 		c.Chunked = true
